@@ -192,7 +192,7 @@ theorem sendsOf_spec {k : Consts} (hk : ConstsOk k) {t : DevTree} (hw : WF t) (c
     · show startsWith s.msg.usn e.dev = true
       rw [husn]; exact heok.usn_prefix
     · simp only [heardOk, obsResponse, hearResponse_ok heok cfg husn hst hl]
-      simp [runCase]
+      simp [runCase, hl]
 
 theorem filter_responses (k : Consts) (cfg : Cfg) (t : DevTree) (r : Str) : ∀ (searches : List SearchIn),
     (searches.flatMap (sendsOf k cfg t)).filter (·.dest == r)
